@@ -188,8 +188,10 @@ func (aw *AsyncWorker) dealWithGroupedContexts(resID string, phaseCtxs []phaseTw
 	conn, err := res.db.Conn(context.Background())
 	if err != nil {
 		for i := range phaseCtxs {
+			aw.rePutBackToQueue.Add(1)
 			aw.commitQueue <- phaseCtxs[i]
 		}
+		return
 	}
 
 	defer conn.Close()
